@@ -124,7 +124,7 @@ func hullGen(r *rand.Rand, n int, tier string, emit func(Case)) {
 					xy, _ := p.XY()
 					xs = append(xs, xy)
 				}
-				if ls := geom.NewLineString(seqOf(xs)); ls.Validate() == nil {
+				if ls := geom.NewLineString(seqOf(xs)); genValid(ls) {
 					g = ls.AsGeometry()
 				}
 			}
